@@ -492,6 +492,43 @@ func ruleUniqueID(c *core.Ctx, objects *types.Var) {
 		}
 		return ms
 	}
+	// returnsFreeID: a private helper every return of which hands back an identifier that
+	// the helper looked up and found free, or that it got from another such helper
+	// (reserveObjectID returning what freeObjectID chose)
+	var returnsFreeID func(h *ssa.Function, depth int) bool
+	returnsFreeID = func(h *ssa.Function, depth int) bool {
+		if h == nil || depth > 3 || !isPrivateHelper(c, h) || len(h.Blocks) == 0 {
+			return false
+		}
+		nret := 0
+		for _, r := range core.Returns(h) {
+			if len(r.Results) == 0 {
+				return false
+			}
+			nret++
+			v := core.RetVal(r, 0)
+			okRet := false
+			for _, lk := range mapLookups(h, objects) {
+				if lk.CommaOk && core.SameValue(lk.Index, v) && core.Guarded(h, r, core.IsFalse(okOf(lk))) {
+					okRet = true
+				}
+			}
+			if pg := predGuards(h, v); len(pg) > 0 && core.Guarded(h, r, core.AnyOf(pg...)) {
+				okRet = true
+			}
+			if !okRet {
+				if cr2, _ := core.CallResult(core.Canon(v)); cr2 != nil {
+					if g := cr2.Call.StaticCallee(); g != h && returnsFreeID(g, depth+1) {
+						okRet = true
+					}
+				}
+			}
+			if !okRet {
+				return false
+			}
+		}
+		return nret > 0
+	}
 	var storeOK func(f *ssa.Function, at ssa.Instruction, key ssa.Value, depth int) bool
 	storeOK = func(f *ssa.Function, at ssa.Instruction, key ssa.Value, depth int) bool {
 		var ms []core.EdgeMatcher
@@ -509,33 +546,9 @@ func ruleUniqueID(c *core.Ctx, objects *types.Var) {
 		// free (index = s.pickIndex(), index = s.reserve())
 		k := core.Canon(key)
 		if cr, _ := core.CallResult(k); cr != nil {
-			if h := cr.Call.StaticCallee(); h != nil && isPrivateHelper(c, h) && len(h.Blocks) > 0 {
-				free := true
-				nret := 0
-				for _, r := range core.Returns(h) {
-					if len(r.Results) == 0 {
-						free = false
-						continue
-					}
-					nret++
-					v := core.RetVal(r, 0)
-					okRet := false
-					for _, lk := range mapLookups(h, objects) {
-						if lk.CommaOk && core.SameValue(lk.Index, v) && core.Guarded(h, r, core.IsFalse(okOf(lk))) {
-							okRet = true
-						}
-					}
-					if pg := predGuards(h, v); len(pg) > 0 && core.Guarded(h, r, core.AnyOf(pg...)) {
-						okRet = true
-					}
-					if !okRet {
-						free = false
-					}
-				}
-				if free && nret > 0 {
-					reserved[k] = true
-					return true
-				}
+			if h := cr.Call.StaticCallee(); h != nil && returnsFreeID(h, 0) {
+				reserved[k] = true
+				return true
 			}
 		}
 		if reserved[k] {
